@@ -41,7 +41,8 @@ check(
     "eqv-sim",
     "Seeded search over histories of create/derive/assert/query/forget/gc (and real Procedure-level scheduling calls) "
     "with crash points injected inside the union-find updates; every answer of check_eqv_proc / get_strictest_eqv_proc / "
-    "get_repr_proc is compared with a reference closure computed from the recorded steps. Sampling, not proof: a clean "
+    "get_repr_proc / Procedure.is_eq is compared with a reference closure computed from the recorded steps; signature "
+    "changers (partial_eval, add_assertion, transpose, extracted sub-procedures) must start a new origin. Sampling, not proof: a clean "
     "batch is evidence for histories up to 40 operations over up to 12 procedures and 5 configuration fields.",
     "Trusts the reference model's per-field reading of the statement and Python's weakref/gc semantics as exercised by explicit gc.collect() events.",
     "deterministic simulation: seeded stateful histories + crash-point and GC fault injection against a reference closure model, ddmin-shrunk replay files",
@@ -51,7 +52,7 @@ check(
 
 _SESSION_NOTE = (
     "Trusts the reference interpreter (Fractions; validated against gcc-compiled C by sim.xval) and the small-scope "
-    "hypothesis (sizes <= 5, histories <= 12 calls, <= 3 faults). Known findings listed in /verif/known_findings.txt are "
+    "hypothesis (sizes <= 5, histories <= 15 calls, <= 3 faults); about half of the sessions are stratified over (program motif, primitive) pairs. Known findings listed in /verif/known_findings.txt are "
     "reported as KNOWN-FINDING lines and do not fail the check."
 )
 check(
@@ -86,8 +87,9 @@ check(
     "C06", "checks.c06", "session-sim",
     "After every successful scheduling call of generated and harvested sessions every statement, gap and block cursor of "
     "the input procedure and of up to three ancestors is forwarded; results are judged by object identity of shared IR "
-    "nodes (same statement), path resolution (no dangling location) and statement class; stale cursors passed to "
-    "operations are compared with explicitly forwarded ones.",
+    "nodes (same statement), path resolution (no dangling location), statement class, gap side/anchor and block span; "
+    "stale cursors passed to operations are compared with explicitly forwarded ones; after every call that fails or is "
+    "interrupted by an injected fault the forwarding maps created by earlier operations are recomputed and must be unchanged.",
     "Trusts that rewritten trees share untouched nodes with their source (identity is only used when the object occurs once in the source tree).",
     "deterministic simulation: seeded op chains with stale cursors, forwarding oracle by IR-node identity evaluated after every call",
     "DESIGN.md §3 C06",
@@ -96,7 +98,8 @@ check(
     "C07", "checks.c07", "session-sim",
     "Every procedure of a session is structurally fingerprinted at creation and re-checked after every call, successful, "
     "failing or interrupted at an injected crash point / solver fault; each faulted call is followed by the 'user re-runs "
-    "the cell' retry which must give the fault-free outcome; compilations are crashed at seeded line events and repeated.",
+    "the cell' retry which must give the fault-free outcome; compilations are crashed at seeded line events and repeated; "
+    "every cursor handed to an operation is snapshotted (procedure, location, resolved node) and re-checked after every later call.",
     "Trusts sys.monitoring LINE events as crash points (a fault inside a C call of z3 is modelled at its return).",
     "deterministic simulation: crash-point / solver fault injection into every call with retry, structural snapshots as invariants",
     "DESIGN.md §3 C07",
